@@ -99,6 +99,24 @@ extern "C" {
     fn __llvm_profile_write_file() -> i32;
 }
 
+/// Called by a case before it enters a region in which the process may die for a reason that is
+/// specific to the case (e.g. a small thread stack): the context becomes part of the signature of
+/// a crash, `crash:<signal>/<context>`, so that such a crash is told apart from any other.
+pub fn crash_context(ctx: &str) {
+    let fd = CHILD_FD.load(Ordering::SeqCst);
+    if fd >= 0 {
+        let s = format!("CTX:{}\n", ctx.replace([':', '\n'], "_"));
+        unsafe {
+            libc::write(fd, s.as_ptr() as *const _, s.len());
+            // the runtime's own message about the expected death would only clutter the output
+            let null = libc::open(b"/dev/null\0".as_ptr() as *const _, libc::O_WRONLY);
+            if null >= 0 {
+                libc::dup2(null, 2);
+            }
+        }
+    }
+}
+
 pub fn child_finish(rep: &Report) -> ! {
     #[cfg(vcheck_cov)]
     unsafe {
@@ -200,6 +218,12 @@ pub fn run_forked(timeout_s: u32, f: &dyn Fn() -> Report) -> Outcome {
             return Outcome::Internal(format!("waitpid: {}", e));
         }
     }
+    let mut ctx = String::new();
+    if buf.starts_with(b"CTX:") {
+        let end = buf.iter().position(|b| *b == b'\n').unwrap_or(buf.len() - 1);
+        ctx = format!("/{}", String::from_utf8_lossy(&buf[4..end]));
+        buf.drain(..=end);
+    }
     if libc::WIFSIGNALED(status) {
         let sig = libc::WTERMSIG(status);
         if sig == libc::SIGALRM {
@@ -209,7 +233,7 @@ pub fn run_forked(timeout_s: u32, f: &dyn Fn() -> Report) -> Outcome {
             // OOM killer or external kill: inconclusive
             return Outcome::Internal("child killed (SIGKILL)".into());
         }
-        return Outcome::Crash(signal_name(sig));
+        return Outcome::Crash(format!("{}{}", signal_name(sig), ctx));
     }
     if buf.starts_with(b"PANIC:") {
         return Outcome::Crash(format!(
